@@ -18,6 +18,7 @@ import GocoinV.Proofs.C19Bound
 import GocoinV.Proofs.C19Order
 import GocoinV.Proofs.C19Chunk
 import GocoinV.Proofs.C19Abort
+import GocoinV.Proofs.C19Flags
 import GocoinV.Gen.QdbFacts
 namespace GocoinV.Props.C19
 open GocoinV GocoinV.Qdb GocoinV.QdbSpec GocoinV.Proofs.C19
@@ -658,11 +659,25 @@ theorem every_abort_order_is_a_walk_list {α : Type} (flagsOf : α → Nat) (all
     (∀ k, walkRes w k = walkRes w0 k) ∧ visitSet flagsOf all idx w = some (last :: init.reverse) :=
   Proofs.C19.every_abort_order_is_a_walk_list flagsOf all idx w0 init last hnd hel hna hab
 
+/-- non-vacuity of every_abort_order_is_a_walk_list: on the index {1, 2 (hidden), 3, 4} a Browse that Go's map order leads
+    through 3, then 1, then 4 — the walk function answers BR_ABORT|NO_BROWSE for 4 and for 1 it would answer YES_CACHE —
+    satisfies the four hypotheses (distinct, eligible, no abort before, abort at the last), and the walk list built from
+    that order has exactly that visit set -/
+example :
+    let idx : List (Key × Rec) := [(1, newRec [1] 0), (2, newRec [2] NO_BROWSE), (3, newRec [3] 0), (4, newRec [4] 0)]
+    let w0 : List (Key × Nat) := [(4, 5), (1, 8), (2, 4)]
+    ([3, 1] ++ [4]).Nodup ∧ (∀ k ∈ [3, 1] ++ [4], eligible Rec.flags false idx k = true) ∧
+    (∀ k ∈ [3, 1], hasFlag (walkRes w0 k) BR_ABORT = false) ∧ hasFlag (walkRes w0 4) BR_ABORT = true ∧
+    visitSet Rec.flags false idx (([3, 1] ++ [4]).map (fun k => (k, walkRes w0 k)) ++ w0) = some [4, 1, 3] := by
+  decide
+
 /-- A BR_ABORT ANSWER TAKES ITS FLAGS ALONG (histories, ghost and bounds as in qdb_refines_map). The in-memory map after
     a Browse is `mbrowseState`: the walk function's answer is applied to the flag word of every VISITED entry and of no
     other; and when the browse stops at `k`, whatever else the aborting answer carries (NO_BROWSE, YES_BROWSE, NO_CACHE,
-    YES_CACHE) is applied to `k` too. (The history may continue: `.browse w` with such answers is an operation of
-    qdb_refines_map / qdb_durable, so the next Browse, the next sync and the next reopen see that flag word.) -/
+    YES_CACHE) is applied to `k` too. THIS STATEMENT IS ABOUT THE GHOST'S STATE (`absv (browse g w).1`); what the REAL store
+    shows after such a Browse — not failed, every later Browse and Get answer from that map — is qdb_browse_then_observe.
+    (Across Close + NewDBExt the flag word survives only if the record is persisted afterwards:
+    flag_change_not_durable_counterexample.) -/
 theorem qdb_browse_abort_applies_answer (load : Bool) (opts : Opts) (H : List HItem)
     (ok : ∀ i ∈ H, HOK5 i) (fits : HFits (openDB {} false load opts true) (twin H)) (w : List (Key × Nat)) (hw : WalkOK5 w) :
     let g := hrun (openDB {} false load opts true) (twin H)
@@ -702,9 +717,9 @@ example :
     not wrap — the same bound `HFits` states for every recovery). Then NewDBExt does not fail, and for every key the
     first Get does not fail and returns exactly `diskValue a.fs k` (with LoadData = false `loadrec` reads it from the
     data file; with LoadData = true NO_CACHE records are skipped by `load` and read back on demand likewise). The
-    ghost's NewDBExt holds `diskValue a.fs` as its in-memory map. Since a crash item at the end of a history replaces
-    the directory by a crash directory and runs exactly this NewDBExt, `diskValue` of a crash directory is what the
-    recovery finds. -/
+    ghost's NewDBExt holds `diskValue a.fs` as its in-memory map. `a.fs` is the directory of a COMPLETED history — when
+    the history ends with a crash item, the directory AFTER the completing (LoadData = true) NewDBExt of that item and its
+    removals. The RAW crash directory, opened directly in any mode with any LoadData: crash_directory_reopen. -/
 theorem durable_map_is_reopen (load : Bool) (opts : Opts) (H : List HItem)
     (ok : ∀ i ∈ H, HOK5 i) (fits : HFits (openDB {} false load opts true) (twin H))
     (vol' load' : Bool) (opts' : Opts)
@@ -741,6 +756,89 @@ theorem durable_map_is_reopen (load : Bool) (opts : Opts) (H : List HItem)
   refine ⟨t1, fun k => ?_, hv⟩
   obtain ⟨u1, u2⟩ := t4 k
   exact ⟨u1, u2.trans (hv k)⟩
+
+/-- non-vacuity of durable_map_is_reopen: a history with a NO_CACHE record, a lazy session and a crash inside Sync is in
+    the language and within the bounds, and the bound `hmax` on the directory it ends in holds for a volatile NewDBExt -/
+example :
+    let H := [HItem.op (.putExt 1 [1, 2] NO_CACHE), .op (.put 2 [5]), .op .sync, .op (.reopen false false {}),
+              .op (.put 2 [6]), .crash .sync 3 [] false {}]
+    (∀ i ∈ H, HOK5 i) ∧ HFits (openDB {} false true {} true) (twin H) ∧
+    (openIndex { fs := (hrun (openDB {} false true {}) H).fs, volatile := true, opts := {}, eager := true }).maxSeq + 1 < 2^32 := by
+  refine ⟨?_, ?_, by decide⟩
+  · intro i hi
+    simp only [List.mem_cons, List.not_mem_nil, or_false] at hi
+    rcases hi with rfl | rfl | rfl | rfl | rfl | rfl <;> simp [HOK5, itemOp, OpOK5, NO_CACHE]
+  · show HFits (openDB {} false true {} true)
+      [HItem.op (.putExt 1 [1, 2] NO_CACHE), .op (.put 2 [5]), .op .sync, .op (.reopen false true {}),
+       .op (.put 2 [6]), .crash .sync 3 [] false {}]
+    simp only [HFits, OpFits3, OpFits, SizeOK, dFits_iff]
+    decide
+
+/-- THE RAW CRASH DIRECTORY (no recovery in between). After any history as in qdb_refines_map / qdb_durable the process
+    dies inside a further operation `o` after ANY number `n` of its file operations, and any number of recovery attempts
+    die inside NewDBExt (`ms`). Call NewDBExt on THAT directory in ANY mode with ANY LoadData — in particular
+    LoadData = false, so that nothing is read before the first Get (bounds: those of `o` as in `HFits`, and the data-file
+    numbers found in the directory do not wrap). Then NewDBExt does not fail; for every key the first Get does not fail and
+    returns `diskValue` of that directory; and that durable map is — for ALL keys at once — the durable map from before
+    `o` or the complete in-memory map after `o` (`vstep (vals g) o`): never a mixture, never an invented value. -/
+theorem crash_directory_reopen (load : Bool) (opts : Opts) (H : List HItem)
+    (ok : ∀ i ∈ H, HOK5 i) (fits : HFits (openDB {} false load opts true) (twin H))
+    (o : Op) (oko : OpOK5 o) (n : Nat) (ms : List Nat) (ropts : Opts)
+    (f1 : OpFits3 (hrun (openDB {} false load opts true) (twin H)) (twinOp o))
+    (f2 : DFits (preSync (hrun (openDB {} false load opts true) (twin H)) (twinOp o)))
+    (vol' load' : Bool) (opts' : Opts)
+    (hmax : (openIndex { fs := recrash ropts (crashDir (hrun (openDB {} false load opts) H) o n) ms,
+                         volatile := vol', opts := opts', eager := true }).maxSeq + 1 < 2^32) :
+    let a := hrun (openDB {} false load opts) H
+    let g := hrun (openDB {} false load opts true) (twin H)
+    let F := recrash ropts (crashDir a o n) ms
+    (openDB F vol' load' opts').failed = none ∧
+    (∀ k, (Qdb.get (openDB F vol' load' opts') k).1.failed = none ∧
+          (Qdb.get (openDB F vol' load' opts') k).2 = diskValue F k) ∧
+    ((∀ k, diskValue F k = diskValue a.fs k) ∨ (∀ k, diskValue F k = vstep (vals g) o k)) := by
+  intro a g F
+  have hT0 : Twin (openDB {} false load opts) (openDB {} false load opts true) := by
+    refine Or.inl ⟨?_, fresh_inv3 (eg := true) load opts⟩
+    have e1 : openDB {} false load opts false = { fs := {}, volatile := false, opts := opts, dataSeq := 1, eager := false } := by
+      cases load <;> rfl
+    have e2 : openDB {} false load opts true = { fs := {}, volatile := false, opts := opts, dataSeq := 1, eager := true } := by
+      cases load <;> rfl
+    rw [e1, e2]
+    exact ⟨rfl, trivial, (fun _ _ h _ => by cases h), (fun _ _ h _ => by cases h), rfl⟩
+  have hT : Twin a g := twin_run H _ _ hT0 ok fits
+  obtain ⟨hO, hAll⟩ := crash_dir_openOK a g hT o oko f1 f2 n ms ropts
+  have hTw := open_twin F vol' load' opts' false [] hO hmax
+  obtain ⟨t1, _, _, t4, _⟩ := hTw.observe
+  have hv : ∀ k, vals (openDB F vol' true opts' true) k = diskValue F k := by
+    intro k
+    rw [vals_eq]
+    exact (open_readable F hO.readable vol' opts').2 k
+  refine ⟨t1, fun k => ?_, hAll⟩
+  obtain ⟨u1, u2⟩ := t4 k
+  exact ⟨u1, u2.trans (hv k)⟩
+
+/-- non-vacuity of crash_directory_reopen: after a synced put and an overwrite, the process dies inside Sync after 2 of
+    its file operations (data written, index log not), one recovery attempt dies too; the hypotheses hold for a LAZY
+    volatile NewDBExt on that directory -/
+example :
+    let H := [HItem.op (.putExt 1 [1, 2] NO_CACHE), .op .sync, .op (.put 1 [9])]
+    let g := hrun (openDB {} false true {} true) (twin H)
+    (∀ i ∈ H, HOK5 i) ∧ HFits (openDB {} false true {} true) (twin H) ∧ OpOK5 .sync ∧
+    OpFits3 g (twinOp .sync) ∧ DFits (preSync g (twinOp .sync)) ∧
+    (openIndex { fs := recrash {} (crashDir (hrun (openDB {} false true {}) H) .sync 2) [1],
+                 volatile := true, opts := {}, eager := true }).maxSeq + 1 < 2^32 := by
+  refine ⟨?_, ?_, trivial, ?_, ?_, by decide⟩
+  · intro i hi
+    simp only [List.mem_cons, List.not_mem_nil, or_false] at hi
+    rcases hi with rfl | rfl | rfl <;> simp [HOK5, itemOp, OpOK5, NO_CACHE]
+  · show HFits (openDB {} false true {} true) [HItem.op (.putExt 1 [1, 2] NO_CACHE), .op .sync, .op (.put 1 [9])]
+    simp only [HFits, OpFits3, OpFits, SizeOK, dFits_iff]
+    decide
+  · show OpFits3 _ Op.sync
+    simp only [OpFits3, OpFits, SizeOK]
+    decide
+  · rw [dFits_iff]
+    decide
 
 /-- OBSERVATION — the stated bound "index snapshot ≤ 1 MiB" (16 + 24·n ≤ 2^20, i.e. n ≤ 43 690 records) is NEEDED, and
     this is the exact condition under which the durability claim fails beyond it. writedatfile sends the snapshot
@@ -814,19 +912,213 @@ theorem snapshot_record_order_irrelevant (ver : Nat) (hv : ver < 2^32) (recs rec
 example : [(1, newRec [1] 0), (2, newRec [] 1)].Perm [(2, newRec [] 1), (1, newRec [1] 0)] ∧
     ([(1, newRec [1] 0), (2, newRec [] 1)].map (·.1)).Nodup := ⟨List.Perm.swap _ _ _, by decide⟩
 
+/-- non-vacuity of writedatfile_first_write_observation: a store whose index has 43 690 records and then the record with
+    key (1 << 32) | 0xFFFFFFFF (VersionSequence 0 → 1) and datpos 0x494E4946, followed by one more record -/
+example : ∃ (db : DB) (pre post : List (Key × Rec)) (r : Rec),
+    db.index = pre ++ (u32 (db.verSeq + 1) * 2^32 + 0xFFFFFFFF, r) :: post ∧ pre.length = 43690 ∧ r.pos = 0x494E4946 ∧
+    post.length = 1 :=
+  ⟨{ fs := {}, index := List.replicate 43690 (0, { data := none, seq := 1, pos := 4, len := 0, flags := 0 }) ++
+       (u32 (0 + 1) * 2^32 + 0xFFFFFFFF, { data := none, seq := 1, pos := 0x494E4946, len := 0, flags := 0 }) ::
+       [(7, { data := none, seq := 1, pos := 4, len := 0, flags := 0 })] },
+   List.replicate 43690 (0, { data := none, seq := 1, pos := 4, len := 0, flags := 0 }),
+   [(7, { data := none, seq := 1, pos := 4, len := 0, flags := 0 })],
+   { data := none, seq := 1, pos := 0x494E4946, len := 0, flags := 0 }, rfl, List.length_replicate, rfl, rfl⟩
+
+/-- CRASH-FREE HISTORIES AGAINST THE PLAIN MAP (corollary of qdb_refines_map + qdb_durable; no ghost in the conclusion).
+    For every sequence `ops` of operations of the whole language (any 32-bit flags, NO_CACHE and BR_ABORT included,
+    Close + NewDBExt in any mode with any LoadData), started by NewDBExt(non-volatile) on an empty directory (bounds
+    `HFits` as before): the store does not fail, Get of every key does not fail and returns exactly what the same
+    sequence leaves in an in-memory map — `vrun`: Put / PutExt set the key, Del removes it, nothing else changes a
+    value; it is the value part of the list-level map `mrun` with `mstep` — and Count is the number of keys of that map. -/
+theorem qdb_is_map_crash_free (load : Bool) (opts : Opts) (ops : List Op)
+    (ok : ∀ o ∈ ops, OpOK5 o) (fits : HFits (openDB {} false load opts true) (twin (ops.map HItem.op))) :
+    let a := run (openDB {} false load opts) ops
+    a.failed = none ∧
+    (∀ k, (Qdb.get a k).1.failed = none ∧ (Qdb.get a k).2 = vrun (fun _ => none) ops k) ∧
+    (∀ k, mget (mrun [] ops) k = vrun (fun _ => none) ops k) ∧
+    (∃ ks : List Key, ks.Nodup ∧ (∀ k, k ∈ ks ↔ (vrun (fun _ => none) ops k).isSome = true) ∧ count a = ks.length) ∧
+    count a = mcount (mrun [] ops) := by
+  intro a
+  have okH : ∀ i ∈ ops.map HItem.op, HOK5 i := by
+    intro i hi
+    obtain ⟨o, ho, rfl⟩ := List.mem_map.mp hi
+    exact ok o ho
+  obtain ⟨r1, _, _, r4, _, _, ks, k1, k2, k3⟩ := qdb_refines_map load opts (ops.map HItem.op) okH fits
+  obtain ⟨_, d2, _⟩ := qdb_durable load opts (ops.map HItem.op) okH fits
+  rw [hrun_ops] at r1 r4 k3
+  have hv : vals (hrun (openDB {} false load opts true) (twin (ops.map HItem.op))) = vrun (fun _ => none) ops := by
+    rw [twin_ops] at d2 ⊢
+    rw [durOK_crashfree _ _ _ _ _ _ d2, vrun_twinOp]
+  rw [hv] at r4 k2
+  obtain ⟨mnd, mv⟩ := mrun_vals ops [] (by simp [Keys])
+  have mv' : ∀ k, mget (mrun [] ops) k = vrun (fun _ => none) ops k := mv
+  refine ⟨r1, r4, mv', ⟨ks, k1, k2, k3⟩, ?_⟩
+  -- Count against the list-level map: the ghost's index and `mrun [] ops` have distinct keys and the same key set
+  obtain ⟨_, _, _, _, _, r6, _⟩ := qdb_refines_map load opts (ops.map HItem.op) okH fits
+  rw [hrun_ops] at r6
+  have hok : ∀ i ∈ twin (ops.map HItem.op), HOK (openDB {} false load opts true).eager i := by
+    rw [openDB_eager]; exact hok_twin _ okH
+  obtain ⟨h3, _⟩ := hrun_dur (twin (ops.map HItem.op)) _ (Or.inl (fresh_inv3 (eg := true) load opts)) hok fits
+  rw [r6]
+  unfold count mcount
+  apply length_eq_of_same_keys _ _ h3.nodup mnd
+  intro k
+  have h1 : vals (hrun (openDB {} false load opts true) (twin (ops.map HItem.op))) k = vrun (fun _ => none) ops k := by
+    rw [hv]
+  rw [vals_eq] at h1
+  have h2 := mv' k
+  unfold mget at h2
+  have e1 : (ilookup k (hrun (openDB {} false load opts true) (twin (ops.map HItem.op))).index).isSome =
+      (vrun (fun _ => none) ops k).isSome := by rw [← h1]; simp
+  have e2 : (ilookup k (mrun [] ops)).isSome = (vrun (fun _ => none) ops k).isSome := by rw [← h2]; simp
+  rw [e1, e2]
+
+/-- non-vacuity of qdb_is_map_crash_free: NO_CACHE put, sync, lazy reopen, flag change, aborting Browse, overwrite,
+    forced defrag, a volatile lazy session -/
+example :
+    let ops := [Op.putExt 1 [1, 2] NO_CACHE, .put 2 [5], .sync, .get 1, .reopen false false { maxPending := 0 },
+                .applyFlags 2 NO_CACHE, .browse [(2, 7), (1, NO_CACHE)], .put 2 [6, 6], .defrag true, .reopen true false {},
+                .put 1 [8], .del 2, .reopen false true {}]
+    (∀ o ∈ ops, OpOK5 o) ∧ HFits (openDB {} false true {} true) (twin (ops.map HItem.op)) := by
+  refine ⟨?_, ?_⟩
+  · intro o ho
+    simp only [List.mem_cons, List.not_mem_nil, or_false] at ho
+    rcases ho with rfl | rfl | rfl | rfl | rfl | rfl | rfl | rfl | rfl | rfl | rfl | rfl | rfl <;>
+      simp [OpOK5, WalkOK5, NO_CACHE]
+  · show HFits (openDB {} false true {} true)
+      [HItem.op (.putExt 1 [1, 2] NO_CACHE), .op (.put 2 [5]), .op .sync, .op (.get 1),
+       .op (.reopen false true { maxPending := 0 }), .op (.applyFlags 2 NO_CACHE), .op (.browse [(2, 7), (1, NO_CACHE)]),
+       .op (.put 2 [6, 6]), .op (.defrag true), .op (.reopen true true {}), .op (.put 1 [8]), .op (.del 2),
+       .op (.reopen false true {})]
+    simp only [HFits, OpFits3, OpFits, SizeOK, dFits_iff]
+    decide
+
+/-- A BROWSE AND WHAT FOLLOWS IT, FOR THE REAL STORE (qdb_browse_abort_applies_answer speaks about the ghost's state; this
+    is the same fact observed on the real store). After any history H as in qdb_refines_map, run Browse with ANY walk
+    function `w` (32-bit answers, BR_ABORT included; bounds `HFits` for H followed by that Browse). Then the real store has
+    not failed after the Browse, and from then on it answers as the in-memory map `mbrowseState (absv g) w` — the map
+    before the Browse in which exactly the VISITED entries, the aborting one included, got the walk function's answer
+    applied to their flag word: every later Browse (any walk function `w'`) shows `mbrowseOutW w'` of that map, and Get
+    returns its values (unchanged by the Browse). -/
+theorem qdb_browse_then_observe (load : Bool) (opts : Opts) (H : List HItem) (w : List (Key × Nat))
+    (ok : ∀ i ∈ H ++ [HItem.op (.browse w)], HOK5 i)
+    (fits : HFits (openDB {} false load opts true) (twin (H ++ [HItem.op (.browse w)])))
+    (w' : List (Key × Nat)) (hw' : WalkOK5 w') :
+    let a := hrun (openDB {} false load opts) H
+    let g := hrun (openDB {} false load opts true) (twin H)
+    (browse a w).1.failed = none ∧
+    (browse (browse a w).1 w').2 = mbrowseOutW w' (mbrowseState (absv g) w) ∧
+    (∀ k, (Qdb.get (browse a w).1 k).1.failed = none ∧ (Qdb.get (browse a w).1 k).2 = vals g k) := by
+  intro a g
+  have hw : WalkOK5 w := ok (.op (.browse w)) (List.mem_append_right _ List.mem_cons_self)
+  have okH : ∀ i ∈ H, HOK5 i := fun i hi => ok i (List.mem_append_left _ hi)
+  have htw : twin (H ++ [HItem.op (.browse w)]) = twin H ++ [HItem.op (.browse w)] := by
+    unfold twin; rw [List.map_append]; rfl
+  have fitsH : HFits (openDB {} false load opts true) (twin H) := by
+    rw [htw] at fits
+    exact (hfits_append _ _ _ fits).1
+  have ea : hrun (openDB {} false load opts) (H ++ [HItem.op (.browse w)]) = (browse a w).1 := by
+    rw [hrun_append]; rfl
+  have eg : hrun (openDB {} false load opts true) (twin (H ++ [HItem.op (.browse w)])) = (browse g w).1 := by
+    rw [htw, hrun_append]; rfl
+  obtain ⟨r1, _, _, r4, _⟩ := qdb_refines_map load opts _ ok fits
+  obtain ⟨b1, _⟩ := qdb_browse_is_map load opts _ ok fits w' hw'
+  obtain ⟨s1, _⟩ := qdb_browse_abort_applies_answer load opts H okH fitsH w hw
+  rw [ea] at r1 r4 b1
+  rw [eg] at r4 b1
+  refine ⟨r1, ?_, fun k => ?_⟩
+  · rw [b1, s1]
+  · obtain ⟨u1, u2⟩ := r4 k
+    refine ⟨u1, u2.trans ?_⟩
+    show mget (absv (browse g w).1) k = mget (absv g) k
+    rw [s1]
+    exact mget_mbrowseState _ w k
+
+/-- A FLAG CHANGE TOUCHES MEMORY ONLY. ApplyFlags, Browse / BrowseAll (whatever the walk function answers) and Get (which
+    clears NO_CACHE: YES_CACHE) perform no file operation and mark nothing pending: directory, effect list and
+    PendingRecords are exactly as before, for every state of the store. So a later sync() writes no index entry for the
+    record unless a Put made the key pending; only a defrag — which rewrites every record — persists the new flag word. -/
+theorem flag_change_touches_memory_only (db : DB) (k : Key) (fl : Nat) (w : List (Key × Nat)) :
+    ((applyFlags db k fl).fs = db.fs ∧ (applyFlags db k fl).effs = db.effs ∧ (applyFlags db k fl).pending = db.pending) ∧
+    ((browse db w).1.fs = db.fs ∧ (browse db w).1.effs = db.effs ∧ (browse db w).1.pending = db.pending) ∧
+    ((browseAll db w).1.fs = db.fs ∧ (browseAll db w).1.effs = db.effs ∧ (browseAll db w).1.pending = db.pending) ∧
+    ((Qdb.get db k).1.fs = db.fs ∧ (Qdb.get db k).1.effs = db.effs ∧ (Qdb.get db k).1.pending = db.pending) :=
+  ⟨applyFlags_keeps db k fl, browseGen_keeps false db w, browseGen_keeps true db w, get_keeps db k⟩
+
+/-- THE FLAG WORD AFTER NewDBExt IS THE PERSISTED ONE. For EVERY directory `F`, every mode, every LoadData and all options:
+    when NewDBExt does not fail, every record it holds carries exactly the flag word of the key's newest index entry on
+    disk — `diskIndex F`: the records of the newest valid snapshot (written by the last defrag), overridden by the
+    entries of the index log (written by sync() for the keys that were pending) — and a key without such an entry is
+    absent. Together with flag_change_touches_memory_only: flag word after a reopen = flag word at the record's last
+    persist. (That NewDBExt does not fail after any history: qdb_refines_map, crash_directory_reopen.) -/
+theorem flags_after_open_are_the_persisted_flags (F : FS) (vol load : Bool) (opts : Opts)
+    (h : (openDB F vol load opts).failed = none) (k : Key) :
+    (ilookup k (openDB F vol load opts).index).map (·.flags) = (ilookup k (diskIndex F)).map (·.flags) :=
+  open_flags (eg := false) F vol load opts h k
+
+/-- non-vacuity of flags_after_open_are_the_persisted_flags: the directory left by PutExt(1, NO_BROWSE), Sync,
+    ApplyFlags(1, YES_BROWSE), Close opens without failure, lazily too -/
+example :
+    let F := (run (openDB {} false true {}) [.putExt 1 [0xaa] NO_BROWSE, .sync, .applyFlags 1 YES_BROWSE, .reopen false true {}]).fs
+    (openDB F false false {}).failed = none ∧ (openDB F true true {}).failed = none := by decide
+
+/-- KNOWN FINDING flag-change-not-durable — the property's first sentence ("any sequence of put, …, flag changes, sync, …,
+    close and reopen … is indistinguishable from the same sequence on an in-memory map") is FALSE of the unchanged code for
+    browsing flags across Close + NewDBExt. Two witnesses, both inside the operation language and the bounds of
+    qdb_refines_map (`OpOK5`, `HFits`), replayed on the real package by the harness (corpus flag-change-not-durable-hide /
+    -show), `mrun` being the in-memory map with flags (`mstep`: a reopen changes nothing):
+    (hide) Put(1, aa); Sync; ApplyFlags(1, NO_BROWSE); Sync — up to here store and map agree: Browse shows nothing —
+           then Close + NewDBExt: Browse of the store shows key 1 again, the map still hides it;
+    (show) PutExt(1, aa, NO_BROWSE); Sync; ApplyFlags(1, YES_BROWSE); Sync — both show key 1 — then Close + NewDBExt: the
+           store hides key 1 again, the map shows it.
+    Values are not affected (Get = the map's value in both). Cause: flag_change_touches_memory_only — the explicit Sync
+    after the flag change has nothing pending and writes nothing; rule: flags_after_open_are_the_persisted_flags. -/
+theorem flag_change_not_durable_counterexample :
+    let hide := [Op.put 1 [0xaa], .sync, .applyFlags 1 NO_BROWSE, .sync, .reopen false true {}]
+    let shw := [Op.putExt 1 [0xaa] NO_BROWSE, .sync, .applyFlags 1 YES_BROWSE, .sync, .reopen false true {}]
+    let db0 := openDB {} false true {}
+    -- before the reopen the store is the map
+    (browse (run db0 (hide.take 4)) []).2 = mbrowseOut (mrun [] (hide.take 4)) ∧
+    (browse (run db0 (shw.take 4)) []).2 = mbrowseOut (mrun [] (shw.take 4)) ∧
+    -- after it, it is not
+    (browse (run db0 hide) []).2 = [(1, [0xaa])] ∧ mbrowseOut (mrun [] hide) = [] ∧
+    (browse (run db0 shw) []).2 = [] ∧ mbrowseOut (mrun [] shw) = [(1, [0xaa])] ∧
+    -- values agree
+    (Qdb.get (run db0 hide) 1).2 = mget (mrun [] hide) 1 ∧ (Qdb.get (run db0 shw) 1).2 = mget (mrun [] shw) 1 ∧
+    -- the second Sync had nothing to write
+    (run db0 (hide.take 4)).fs = (run db0 (hide.take 2)).fs ∧
+    -- both histories are histories of the central theorems
+    (∀ o ∈ hide ++ shw, OpOK5 o) ∧
+    HFits (openDB {} false true {} true) (twin (hide.map HItem.op)) ∧
+    HFits (openDB {} false true {} true) (twin (shw.map HItem.op)) := by
+  refine ⟨by decide, by decide, by decide, by decide, by decide, by decide, by decide, by decide, by decide, ?_, ?_, ?_⟩
+  · intro o ho
+    simp only [List.cons_append, List.nil_append, List.mem_cons, List.not_mem_nil, or_false] at ho
+    rcases ho with rfl | rfl | rfl | rfl | rfl | rfl | rfl | rfl | rfl | rfl <;>
+      simp [OpOK5, NO_BROWSE, YES_BROWSE]
+  · show HFits (openDB {} false true {} true)
+      [HItem.op (.put 1 [0xaa]), .op .sync, .op (.applyFlags 1 NO_BROWSE), .op .sync, .op (.reopen false true {})]
+    simp only [HFits, OpFits3, OpFits, SizeOK, dFits_iff]
+    decide
+  · show HFits (openDB {} false true {} true)
+      [HItem.op (.putExt 1 [0xaa] NO_BROWSE), .op .sync, .op (.applyFlags 1 YES_BROWSE), .op .sync, .op (.reopen false true {})]
+    simp only [HFits, OpFits3, OpFits, SizeOK, dFits_iff]
+    decide
+
 -- OPEN (outside the statements above, see the manifest): (i) index snapshots larger than the 1 MiB bufio buffer, i.e.
 --   more than 43 690 records (`DFits.small` — a stated bound of qdb_refines_map / qdb_durable; beyond it the property is
 --   false in principle under the exact condition of snapshot_cut_at_buffer_boundary_observation; the data file has no
---   such bound: defrag's data writer is analysed for any number of chunks); (ii) which browsing flags a record carries
---   after a reopen is specified as "what was persisted with it" (qdb_browse_is_map speaks about the flag word the ghost
---   holds), not by an independent map-level rule; (iii) BrowseAll (in the model, the oracle and the harness — `browseall <walk>`,
+--   such bound: defrag's data writer is analysed for any number of chunks); (ii) browsing flags across Close + NewDBExt are NOT those
+--   of an in-memory map: KNOWN FINDING flag_change_not_durable_counterexample; what they are instead is proved
+--   (flags_after_open_are_the_persisted_flags + flag_change_touches_memory_only), and qdb_browse_is_map speaks about the
+--   flag word the ghost — i.e. the store — holds; (iii) BrowseAll (in the model, the oracle and the harness — `browseall <walk>`,
 --   `peek` — with the lemmas of Proofs/C19* stated for Browse and BrowseAll alike, but not an `Op` of the theorems),
 --   GetNoMutex, Flush and the WalkFunction of NewDBExt are outside the theorems' operation language (BR_ABORT is inside:
 --   `WalkOK5` is any 32-bit word, the order of the walk list stands for Go's map order); (iv) the completing NewDBExt of a crash
 --   item loads the data (`hstep .crash` passes LoadData = true; recovery attempts that themselves die, `recrash`, are
 --   non-volatile NewDBExt calls — the file operations of NewDBExt depend neither on the mode nor on LoadData); a
---   LoadData = false NewDBExt on the directory reached by ANY history (hence on every crash directory: end the history
---   with the crash item) is durable_map_is_reopen; (v) the crash model is PROCESS KILL AT SYSTEM-CALL BOUNDARIES: every
+--   NewDBExt with any LoadData on the directory of a completed history is durable_map_is_reopen, on a raw crash directory
+--   crash_directory_reopen; (v) the crash model is PROCESS KILL AT SYSTEM-CALL BOUNDARIES: every
 --   completed file operation survives entirely, an interrupted one has not happened. A write(2) torn inside (SIGKILL
 --   between two pages of a multi-page write, power loss, reordering by the file system) is outside it; (vi) Go's map
 --   iteration order is the list order of the model (one of the n! write orders of every multi-record sync / defrag; for
